@@ -192,6 +192,19 @@ func verifyFunction(P *Program, S *Specs, fn *ssa.Function, ct *Contract, prop s
 			fr.assignsObligation(entry, ct)
 		}
 	}
+	// every call-site clause of the contract must have matched a program point (else it silently checks nothing)
+	if ct != nil {
+		for i, st := range ct.Sites {
+			if ex.siteMatched[i] || !clauseApplies(st.Cl, prop) {
+				continue
+			}
+			if st.Kind == "ghost" && len(st.Cl.Prop) == 0 && st.Ghost != nil {
+				// ghost assignments carry no property tag of their own: they apply whenever the function is checked
+			}
+			ex.failOb("contract-typechecks", fmt.Sprintf("site-unmatched/%s#%d", sanitize(st.Callee), st.Ord),
+				fmt.Sprintf("clause 'at/sink %s#%d' of the contract matches no call site, return or loop exit of the function (moved or removed?)", st.Callee, st.Ord), fn.Pos())
+		}
+	}
 	ex.finish()
 	rep.Obs = ex.obs
 	rep.Notes = sortedNotes(ex.notes)
